@@ -7,8 +7,9 @@ Local Open Scope N_scope.
 Definition M (i t l : N) (g : list N) : msg := {| m_id := i; m_type := t; m_len := l; m_guards := g |}.
 
 (* handler message ids, state after each transition, pendingRecvBytes after
-   each change, ids of the messages on the wire, error delivered *)
-Definition obs := (list N * list N * list N * list N * bool)%type.
+   each change, ids of the messages on the wire, ids of the messages whose send
+   transition was made (in that order), error delivered *)
+Definition obs := (list N * list N * list N * list N * list N * bool)%type.
 (* index of the state map, server role?, receive queue capacity, labels, observations *)
 Definition case := (nat * bool * N * list label * obs)%type.
 
@@ -27,7 +28,7 @@ Definition pending_failure (s : st) : bool :=
   match lph (rc s) with LFail _ => true | _ => false end.
 
 Definition diag (maps : list (statemap * N)) (k : consts) (cs : case) : N :=
-  let '(i, srv, rq, ls, (oh, os, op, ow, oe)) := cs in
+  let '(i, srv, rq, ls, (oh, os, op, ow, ot, oe)) := cs in
   match nth_error maps i with
   | None => 9
   | Some (sm, s0) =>
@@ -41,6 +42,7 @@ Definition diag (maps : list (statemap * N)) (k : consts) (cs : case) : N :=
       else if negb (prefixb ow (map m_id (wire_log (lg s)))) then 4
       else if negb (Bool.eqb (err (fl s)) oe) then 5
       else if pending_failure s then 6
+      else if negb (list_eqb N.eqb (map m_id (strans_log (lg s))) ot) then 7
       else 0
     end
   end.
